@@ -1,6 +1,7 @@
 import Bandit.Proofs.C17Tables
 import Bandit.Gen.Regexes
 import Bandit.Gen.Defaults
+import Bandit.Proofs.Imports
 /-!
 # C17 — Injection, templating, deserialization and misc checks follow their rules
 
@@ -782,5 +783,46 @@ example :
         ("orelse".toList, true, []), ("finalbody".toList, true, [])]]
     scan m Gen.pluginDefaults = [] ∧ crashes m Gen.pluginDefaults = [] := by
   decide +kernel
+
+/-! ## Import gates are set membership
+
+B201, B601, B611, B506, B614, B202, B703 (and B507) look at the visited imports.  bandit keeps them in a `set`; the model keeps the list
+of visits.  The three theorems say that the list is only ever used as a set. -/
+
+/-- **what the visitor adds.**  After visiting any node the imports are the old ones plus the node's own (`importedBy`) -/
+theorem visited_imports_accumulate (s : VState) (n : Node) (q : Str) :
+    q ∈ (s.update n).imports ↔ q ∈ importedBy n ∨ q ∈ s.imports :=
+  update_imports_mem s n q
+
+/-- **order and repetition of imports cannot change a decision.**  For every selected test set (blacklist check included), every node and every
+two import lists with the same members, each check returns the same result — finding, silence or internal error alike -/
+theorem import_gates_are_set_membership (pc : PluginCfg) (fn : Str) (t : BlTables) (keep : Str → Bool) (e : Env) (x : List Str)
+    (h : SameMembers x e.st.imports) :
+    ∀ c ∈ testSet pc fn t keep, c.run (e.withImports x) = c.run e :=
+  testSet_imp h pc fn t keep
+
+/-- in particular two `import` statements may be swapped, and one may be repeated -/
+theorem import_statements_commute (s : VState) (a b : Node) :
+    SameMembers ((s.update a).update b).imports ((s.update b).update a).imports ∧
+    SameMembers ((s.update a).update a).imports (s.update a).imports := by
+  refine ⟨fun q => ?_, fun q => ?_⟩
+  · simp only [update_imports_mem]
+    constructor <;> (rintro (h | h | h) <;> simp [h])
+  · simp only [update_imports_mem]
+    constructor
+    · rintro (h | h | h) <;> simp [h]
+    · rintro (h | h) <;> simp [h]
+
+/-- non-vacuity: the gate matters (an empty import set silences B506 on the same call), and two different lists have the same members -/
+example : SameMembers ["yaml".toList, "os".toList, "yaml".toList] ["os".toList, "yaml".toList] := by
+  intro s; simp only [List.mem_cons, List.not_mem_nil, or_false]
+  constructor
+  · rintro (h | h | h)
+    · exact .inr h
+    · exact .inl h
+    · exact .inr h
+  · rintro (h | h)
+    · exact .inr (.inl h)
+    · exact .inl h
 
 end Props.C17
